@@ -196,6 +196,21 @@ theorem C08_den_dyn_noCalc (inp : RunInput) (hnc : NoCalc inp) (t : Name) (d : D
     Dyn.DenOf inp t d ↔ DenOf inp t d :=
   Dyn.DenOf_noCalc hnc t d
 
+/-- the dynamic denotation is total on finite acyclic graphs — `Dyn.Ranked` is C09's hypothesis `Ranked`: the rank decreases along
+    task_dep, setup, static and deliverable calc_dep edges and along everything a calc_dep can deliver — so with
+    `DenOf.functional` every task has exactly one outcome there.  (Confluence itself does not need this: a run that
+    ends without exception has derived what it reports.) -/
+theorem C08_den_total_dyn (inp : RunInput) (rank : Name → Nat) (hr : Dyn.Ranked inp rank) (N : Nat)
+    (hN : ∀ n d, Dyn.Dep inp n d → d < N) (t : Name) :
+    ∃ d, Dyn.DenOf inp t d ∧ d ≠ .bot ∧ ∀ d', Dyn.DenOf inp t d' → d' = d := by
+  obtain ⟨d, hd⟩ := Dyn.DenOf_total hr N hN t
+  exact ⟨d, hd, hd.ne_bot, fun d' h' => h'.functional hd⟩
+
+/-- non-vacuity: the example with dynamic edges below (`Dyn.exC08calc`) meets the hypotheses of `C08_den_total_dyn` -/
+example : Dyn.Ranked Dyn.exC08calc (fun n => if n = 1 ∨ n = 3 then 1 else 0) ∧
+    ∀ n d, Dyn.Dep Dyn.exC08calc n d → d < 6 :=
+  Dyn.exC08calc_ranked
+
 /-- a complete run (normal end, not stopped) of ANY graph reports exactly the denotational closure of the selection
     (`Dyn.DenCl`: closed under task_dep, static and delivered calc_dep, what executed / up-to-date calc_deps deliver,
     and the setup-tasks of members whose first pass says `run`) -/
